@@ -203,6 +203,42 @@ func combineContext(c *Ctx) {
 			q.add("PATH", "the primary is returned unchanged only if it is cancelled or there is nothing to combine", why != "", pickS(why != "", why, "the primary context itself is returned although it is live and other contexts were given: their cancellation would not cancel the result"), r)
 		}
 	}
+	// the pre-check is a two-way decision on Err(): every non-nil other is either counted (still live) or makes the
+	// result cancelled - whatever the KIND of its error (context.Canceled, DeadlineExceeded, a custom cause)
+	{
+		errs := an.AllInstrs(fn, func(in ssa.Instruction) bool {
+			call, ok := in.(*ssa.Call)
+			return ok && call.Call.IsInvoke() && call.Call.Method.Name() == "Err" && !isPrimary(call.Call.Value)
+		})
+		var incs []ssa.Instruction
+		for _, in := range an.AllInstrs(fn, func(in ssa.Instruction) bool {
+			b, ok := in.(*ssa.BinOp)
+			if !ok || b.Op != token.ADD || !isIntT(b) {
+				return false
+			}
+			ph, isPh := b.X.(*ssa.Phi)
+			k, isK := constInt(b.Y)
+			// (the range's own index is advanced in the loop header, next to its phi: not the counter)
+			return isPh && isK && k == 1 && ph.Block() != b.Block()
+		}) {
+			incs = append(incs, in)
+		}
+		if len(errs) > 0 && len(incs) > 0 {
+			e := errs[0]
+			stop := func(in ssa.Instruction) bool { return in == e || an.IsReturn(in) || in == main }
+			avoid := func(in ssa.Instruction) bool {
+				for _, x := range incs {
+					if x == in {
+						return true
+					}
+				}
+				return in == early
+			}
+			skip := P.PathExists(fn, e, stop, avoid, nil)
+			q.add("PATH", "every non-nil other context is either counted as live or makes the result cancelled", !skip,
+				pickS(!skip, "from other.Err() every path passes n++ or the already-cancelled branch", "an other context can fall through the pre-check uncounted and without cancelling the result (e.g. only context.Canceled is recognised, not a deadline): the result is not already cancelled although an input is"), e)
+		}
+	}
 	// an other context is used (Err, AfterFunc) only where it was found non-nil
 	for _, in := range an.AllInstrs(fn, func(in ssa.Instruction) bool {
 		call, ok := in.(*ssa.Call)
